@@ -59,6 +59,7 @@ FLOOR = "1e-18"
 RUN_TIMEOUT = 40
 KEY_CD = "cd_music-species-without-charge-distribution"
 KEY_NEG = "negative-total-recovery-with-kinetics"
+KEY_RK2 = "rk2-restores-solid-solution"
 
 
 def hx(s):
@@ -375,6 +376,17 @@ def judge_history(ctx, h, res, pm):
             bad = [b for b in bad if b["element"] != "Charge"]
             if cbad:
                 out.setdefault("findings", []).append((KEY_CD, "simulation %d: %s" % (s, json.dumps(cbad[0])), s))
+        if bad and "kinetics" in plan["use"] and "Recovering..." in runs[s]["warn"]:
+            # same known finding: step() returned MASS_BALANCE ("Negative moles in solution ... Recovering...") under the
+            # kinetics driver and the call still returned no error
+            out.setdefault("findings", []).append((KEY_NEG, "simulation %d: MASS_BALANCE recovery under KINETICS; %s"
+                                                   % (s, json.dumps(bad[:3])), s))
+            bad = []
+        if bad and "kinetics" in plan["use"] and "solid_solutions" in plan["use"] and \
+                val(before[("KINETICS_RAW", plan["use"]["kinetics"])]["opts"], "rk") == "2":
+            out.setdefault("findings", []).append((KEY_RK2, "simulation %d: KINETICS -runge_kutta 2 with SOLID_SOLUTIONS; %s"
+                                                   % (s, json.dumps(bad[:3])), s))
+            bad = []
         if bad:
             out["problems"].append(("conservation", "simulation %d (%d steps): %s" % (s, nsteps, json.dumps(bad[:4])), s))
         if neg:
